@@ -186,8 +186,33 @@ pub struct RunResult {
     pub orderings: Value,
 }
 
-/// Executes one model execution on real threads.
+static RUN_STARTED_MS: std::sync::atomic::AtomicU64 = std::sync::atomic::AtomicU64::new(0);
+static WATCHDOG: std::sync::Once = std::sync::Once::new();
+fn now_ms() -> u64 {
+    std::time::SystemTime::now().duration_since(std::time::UNIX_EPOCH).unwrap().as_millis() as u64
+}
+
+/// Executes one model execution on real threads. A run that does not finish within 30 s takes
+/// the process down (exit 3): bin/check then repeats the replay with one process per schedule.
 pub fn run_schedule(v: &Value) -> RunResult {
+    use std::sync::atomic::Ordering::Relaxed;
+    WATCHDOG.call_once(|| {
+        std::thread::spawn(|| loop {
+            std::thread::sleep(std::time::Duration::from_millis(250));
+            let s = RUN_STARTED_MS.load(Relaxed);
+            if s != 0 && now_ms().saturating_sub(s) > 30_000 {
+                eprintln!("lsverif: a schedule did not finish within 30 s; giving up on in-process replay");
+                std::process::exit(3);
+            }
+        });
+    });
+    RUN_STARTED_MS.store(now_ms(), Relaxed);
+    let r = run_schedule_inner(v);
+    RUN_STARTED_MS.store(0, Relaxed);
+    r
+}
+
+fn run_schedule_inner(v: &Value) -> RunResult {
     let progs: Vec<Vec<String>> = serde_json::from_value(v["progs"].clone()).unwrap();
     let own0: Vec<usize> = serde_json::from_value(v["own0"].clone()).unwrap();
     let borrowers: Vec<usize> = serde_json::from_value(v["borrowers"].clone()).unwrap();
@@ -360,6 +385,21 @@ fn run_isolated(v: &Value) -> RunResult {
     {
         let mut tx = child.stdin.take().unwrap();
         let _ = writeln!(tx, "{}", v);
+    }
+    // a run that does not finish within 20 s is a finding (hang), not a reason to hang the check
+    let t0 = std::time::Instant::now();
+    loop {
+        match child.try_wait() {
+            Ok(Some(_)) => break,
+            Ok(None) if t0.elapsed().as_secs() >= 20 => {
+                let _ = child.kill();
+                let _ = child.wait();
+                return RunResult { granted: vec![], pos: 0, followed: false, desync: true, label_mismatches: 0,
+                    shim_errors: vec!["hang:the execution on real threads did not finish within 20 s".into()], result_mismatches: vec![], events: vec![], orderings: json!({}) };
+            }
+            Ok(None) => std::thread::sleep(std::time::Duration::from_millis(2)),
+            Err(_) => break,
+        }
     }
     let out = child.wait_with_output().unwrap();
     let text = String::from_utf8_lossy(&out.stdout);
